@@ -37,7 +37,9 @@ def setText (k : Kind) (els : List Val) : String :=
 def runC12 (fields : List String) (obs : String) : String × String × String :=
   let eqv (m : String) := (m, if obs == m then "ok" else "bad:expected " ++ m, "-")
   let res (model spec region : String) := (model, if obs == spec then "ok" else "bad:expected " ++ spec, if model == spec then "-" else region)
-  match fields with
+  -- a trailing `form=…` field says how the source is written (a variable, in place, a temporary value):
+  -- the converted value does not depend on it
+  match fields.filter (fun f => !f.startsWith "form=") with
   | ["optempty", _] => eqv "empty"
   | ["convopt", k1n, k2n, ot] =>
     -- an option kind `k2?` takes a value exactly as `k2` does, or refuses it: the pinned commit accepts only
